@@ -6,8 +6,11 @@ pub mod c03;
 pub mod c05;
 pub mod c06;
 pub mod c07;
+pub mod c08;
 pub mod c09;
+pub mod c10;
 pub mod c13;
+pub mod c14;
 pub mod c15;
 mod c15_hash;
 mod c15_json;
@@ -15,6 +18,8 @@ mod c15_typed;
 pub mod c16;
 pub mod c17;
 pub mod c18;
+pub mod c19;
+pub mod c20;
 pub mod smoke;
 
 pub fn all() -> Vec<CheckSpec> {
@@ -25,12 +30,17 @@ pub fn all() -> Vec<CheckSpec> {
         c05::spec(),
         c06::spec(),
         c07::spec(),
+        c08::spec(),
         c09::spec(),
+        c10::spec(),
         c13::spec(),
+        c14::spec(),
         c15::spec(),
         c16::spec(),
         c17::spec(),
         c18::spec(),
+        c19::spec(),
+        c20::spec(),
         smoke::spec(),
     ]
 }
